@@ -109,6 +109,9 @@ func conformance(cases []tlcCase) confResult {
 		}
 	}
 	for _, cs := range cases {
+		if cs.Flags == "xxx" {
+			continue // a TLC counterexample string added by the checker without the spec's values
+		}
 		if len(cs.Flags) != 3 {
 			add(cs, "", "flags", cs.Flags, "")
 			continue
